@@ -58,3 +58,35 @@ def symbol_node_contract(node, addr, v, defined, outer_scope):
     check("address_unchanged", a is addr)
     check("bound_in_the_binding_scope", scope0.symbols.get(node.symbol_name) == v)
     check("binding_scope_current_again", r.current_scope is scope0)
+
+
+def macro_body_error_contract(p, resolver, addr, line, file, n_statement_tokens, app_line):
+    """The same statement written as a line of a MACRO BODY, the macro applied on another line: the error raised for it -- in the label pass or at
+    emission -- is attributed to a token on the statement's own line (where it is written), not to the application."""
+    from a816.parse.ast.nodes import BlockAstNode, MacroApplyAstNode, MacroAstNode
+    from a816.parse.tokens import Position, Token, TokenType
+    from vf.contracts.rt import assume
+    assume(app_line != line)
+    a = parse_decl(p)
+    mtok = Token(TokenType.IDENTIFIER, "m", Position(app_line, 0, file))
+    mdef = MacroAstNode("m", [], BlockAstNode([a], mtok), mtok)
+    app = MacroApplyAstNode("m", [], mtok)
+    code = _code_gen([mdef, app], resolver, {})
+    raised = 0
+    # each pass replays the scopes from the top-level scope (what Program.resolver_reset does between the passes)
+    resolver.last_used_scope = 0
+    resolver.current_scope = resolver.scopes[0]
+    for node in code:
+        try:
+            node.pc_after(addr)
+        except NodeError as e:
+            check("label_pass_error_attributed_to_the_body_line", on_statement_line(e.file_info, line, file))
+    resolver.last_used_scope = 0
+    resolver.current_scope = resolver.scopes[0]
+    for node in code:
+        try:
+            node.emit(addr)
+        except NodeError as e:
+            raised += 1
+            check("error_attributed_to_the_body_line", on_statement_line(e.file_info, line, file))
+    check("undefined_symbol_is_reported", raised >= 1)
